@@ -8,6 +8,7 @@ import (
 	"bytes"
 	"fmt"
 	"strings"
+	"sync"
 	"sync/atomic"
 	"testing"
 	"time"
@@ -602,4 +603,133 @@ func TestC04Enum(t *testing.T) {
 	}
 	St.ClassN("enumerated_two_client_cases_checked", run)
 	St.Sample(map[string]any{"kind": "enumerated two-client cases under the structural oracle", "cases_in_this_shard": run}, true)
+}
+
+// Two directories that two clients try to move into each other at the same time (RENAME /D0 -> /D1/z and
+// RENAME /D1 -> /D0/z, or into directories further down): whatever the interleaving - client 0 is held at each of
+// its first lock/commit points while client 1 runs - at most one of the two can succeed (the second would move a
+// directory below itself), and the directories must still form a tree rooted at the root.
+func TestC04RenameCycle(t *testing.T) {
+	shard, nshards := EnvInt("VERIF_SHARD", 0), EnvInt("VERIF_NSHARDS", 1)
+	St.Exhaustive(true)
+	run := 0
+	idx := -1
+	for _, deep := range []bool{false, true} {
+		for _, low := range []bool{false, true} {
+			for hook := -1; hook < 14; hook++ {
+				idx++
+				if idx%nshards != shard {
+					continue
+				}
+				d := NewDisk(9000)
+				d.SetRecord(false)
+				w, err := setupWorld(true, low, d)
+				if err != nil {
+					t.Fatalf("setup: %v", err)
+				}
+				api := w.S.API()
+				to0, to1 := 2, 1 // directory slots: D0 moves into D1, D1 moves into D0
+				if deep {
+					// ... or into a directory inside them: D0/x and D1/x
+					w.exec(api, cOp{Kind: "mkdir", Dir: 1, Name: "x"})
+					w.exec(api, cOp{Kind: "mkdir", Dir: 2, Name: "x"})
+					l0 := api.NFSPROC3_LOOKUP(nt.LOOKUP3args{What: nt.Diropargs3{Dir: w.Dirs[1], Name: "x"}})
+					l1 := api.NFSPROC3_LOOKUP(nt.LOOKUP3args{What: nt.Diropargs3{Dir: w.Dirs[2], Name: "x"}})
+					if l0.Status != nt.NFS3_OK || l1.Status != nt.NFS3_OK {
+						t.Fatalf("setup: lookup of the inner directories failed")
+					}
+					// the slots of the two shared directories stay; the targets are addressed through spare slots
+					w.Dirs = [3]nt.Nfs_fh3{w.Dirs[0], w.Dirs[1], w.Dirs[2]}
+					w.deepDirs = [2]nt.Nfs_fh3{l0.Resok.Object, l1.Resok.Object}
+				}
+				ren := func(name string, target int) nt.Nfsstat3 {
+					td := w.Dirs[target]
+					if deep {
+						td = w.deepDirs[target-1]
+					}
+					return api.NFSPROC3_RENAME(nt.RENAME3args{From: nt.Diropargs3{Dir: w.Dirs[0], Name: nt.Filename3(name)}, To: nt.Diropargs3{Dir: td, Name: "z"}}).Status
+				}
+				var st0, st1 nt.Nfsstat3
+				mon := w.S.Mon()
+				var hooks int32
+				othersDone := make(chan struct{})
+				reached := make(chan struct{})
+				var once, reachedOnce sync.Once
+				var client0 uint64
+				if hook >= 0 {
+					mon.SetYield(func(point string) {
+						if goid() != atomic.LoadUint64(&client0) {
+							return
+						}
+						if int(atomic.AddInt32(&hooks, 1))-1 != hook {
+							return
+						}
+						once.Do(func() {
+							reachedOnce.Do(func() { close(reached) })
+							select {
+							case <-othersDone:
+							case <-time.After(20 * time.Millisecond):
+							}
+						})
+					})
+				} else {
+					close(reached)
+				}
+				o := Guard(20*time.Second, func() {
+					var wg sync.WaitGroup
+					wg.Add(2)
+					go func() {
+						defer wg.Done()
+						atomic.StoreUint64(&client0, goid())
+						st0 = ren("D0", to0)
+						reachedOnce.Do(func() {
+							if hook >= 0 {
+								close(reached)
+							}
+						})
+					}()
+					go func() {
+						defer wg.Done()
+						defer close(othersDone)
+						if hook >= 0 {
+							<-reached
+						}
+						st1 = ren("D1", to1)
+					}()
+					wg.Wait()
+				})
+				mon.SetYield(nil)
+				detail := map[string]any{"into_inner_directories": deep, "children_numbered_below_parents": low, "client_0_held_at_hook": hook,
+					"RENAME /D0 -> D1.../z": st0, "RENAME /D1 -> D0.../z": st1}
+				fail := func(format string, a ...any) {
+					msg := fmt.Sprintf(format, a...)
+					St.Violation("C04", msg, detail)
+					t.Fatalf("C04: %s\n%v", msg, detail)
+				}
+				if o.Slow {
+					St.Class("call_too_slow_for_the_harness_not_judged")
+					continue
+				}
+				if o.Bad() {
+					St.Class("run_not_judged")
+					continue // C06/C11
+				}
+				if st0 == nt.NFS3_OK && st1 == nt.NFS3_OK {
+					fail("both renames succeeded: each directory is now inside the other and neither is reachable from the root")
+				}
+				if st0 != nt.NFS3_OK && st1 != nt.NFS3_OK {
+					fail("neither rename succeeded (status %d and %d) although each is possible by itself", st0, st1)
+				}
+				var ferr error
+				if g := Guard(10*time.Second, func() { w.S.Quiesce(); ferr = Fsck(w.S.N.VerifFsState(), FsckOpts{Exact: true, Allocators: true}).Err() }); g.Bad() || ferr != nil {
+					fail("after the two renames the disk is not a well-formed file system: %v %v", g, ferr)
+				}
+				w.S.Stop()
+				run++
+				St.Eval(1)
+				St.NT(Hash("cycle", deep, low, hook))
+			}
+		}
+	}
+	St.ClassN("pairs_of_directories_moved_into_each_other", run)
 }
